@@ -3,7 +3,7 @@
    the behaviour of commit / purge / schedule_purge / try_purge (C13 mask part, C18 segment part). *)
 From Coq Require Import NArith ZArith Lia Bool List.
 From Coq Require Import ZifyN ZifyBool.
-From MiV Require Import Gen.Consts Gen.OsConsts Model.Arith Proofs.Base Proofs.BitsProofs Model.Os Model.Mask.
+From MiV Require Import Gen.Consts Gen.OsConsts Model.Arith Proofs.Base Proofs.BitsProofs Model.Os Model.Mask Proofs.OsProofs.
 Import ListNotations.
 Ltac Zify.zify_post_hook ::= Z.div_mod_to_equations.
 Local Open Scope N_scope.
@@ -241,4 +241,133 @@ Proof.
   - unfold pstart in *; lia.
   - unfold pstart in *; lia.
   - exists (st / 65536), ((en - st) / 65536). repeat split; try lia. exact Hbits.
+Qed.
+
+(* mask of a run of whole slices: exactly its bits, and the byte range is the slices themselves *)
+Lemma scm_aligned s i c :
+  seg_ok s -> is_huge s = false -> 0 < c -> (i + c) * CS <= s_size s ->
+  segment_commit_mask s true (s_base s + i * CS) (c * CS) = (s_base s + i * CS, c * CS, commit_mask_create i c).
+Proof.
+  intros Hok Hh Hc Hic.
+  pose proof Hok as (Hsz & Hbb & Hm1 & Hm2). unfold CS in *. rewrite COMMIT_SIZE_val, ?SEGSIZE_val in *.
+  assert (P62 : 2 ^ 62 = 4611686018427387904) by reflexivity. rewrite P62 in *.
+  rewrite scm_body by (try assumption; rewrite ?SEGSIZE_val; lia). cbv zeta.
+  replace (s_base s + i * 65536 - s_base s) with (i * 65536) by lia.
+  assert (A1 : (i * 65536 + 65535) / 65536 * 65536 = i * 65536) by lia.
+  assert (A2 : (i * 65536 + c * 65536) / 65536 * 65536 = (i + c) * 65536) by lia.
+  rewrite A1, A2.
+  assert (F : ((s_info_size s <=? i * 65536) && (i * 65536 <? s_info_size s)) = false).
+  { destruct (s_info_size s <=? i * 65536) eqn:G; [|reflexivity]. apply N.leb_le in G. cbn [andb]. apply N.ltb_ge. exact G. }
+  rewrite F.
+  assert (F2 : (s_size s <? (i + c) * 65536) = false) by (apply N.ltb_ge; lia). rewrite F2.
+  assert (F3 : (i * 65536 <? (i + c) * 65536) = true) by (apply N.ltb_lt; lia). rewrite F3.
+  assert (F4 : ((i + c) * 65536 - i * 65536 =? 0) = false) by (apply N.eqb_neq; lia). rewrite F4.
+  replace ((i + c) * 65536 - i * 65536) with (c * 65536) by lia.
+  replace (i * 65536 / 65536) with i by lia. replace (c * 65536 / 65536) with c by lia. reflexivity.
+Qed.
+
+(* ------------------------------------------------------------------------------------- *)
+(* the runs enumerated by mi_commit_mask_foreach                                           *)
+(* ------------------------------------------------------------------------------------- *)
+Definition in_run (r : N * N) (k : N) : Prop := fst r <= k /\ k < fst r + snd r.
+
+Inductive sorted_from : N -> list (N * N) -> Prop :=
+| sorted_nil lo : sorted_from lo []
+| sorted_cons lo s l rest : lo <= s -> 0 < l -> sorted_from (s + l) rest -> sorted_from lo ((s, l) :: rest).
+
+Lemma sorted_weaken lo lo' rs : lo' <= lo -> sorted_from lo rs -> sorted_from lo' rs.
+Proof. intros H S. destruct S; constructor; try assumption. lia. Qed.
+
+Lemma sorted_in lo rs r : sorted_from lo rs -> In r rs -> lo <= fst r /\ 0 < snd r.
+Proof.
+  intros S. induction S; intros I; [destruct I|].
+  destruct I as [<-|I]; [cbn; lia|]. specialize (IHS I). lia.
+Qed.
+
+Lemma runs_aux_sorted n : forall bm i start len, (0 < len -> start + len = i) ->
+  sorted_from (if 0 <? len then start else i) (runs_aux n bm i start len).
+Proof.
+  induction n as [|n IH]; intros bm i start len H; cbn [runs_aux].
+  - destruct (0 <? len) eqn:E; [|constructor]. apply N.ltb_lt in E. constructor; [lia|assumption|constructor].
+  - destruct (N.testbit bm i).
+    + specialize (IH bm (i + 1) (if len =? 0 then i else start) (len + 1)).
+      assert (E1 : (0 <? len + 1) = true) by (apply N.ltb_lt; lia). rewrite E1 in IH.
+      destruct (len =? 0) eqn:E; [apply N.eqb_eq in E|apply N.eqb_neq in E].
+      * subst len. cbn. apply IH. lia.
+      * assert (E2 : (0 <? len) = true) by (apply N.ltb_lt; lia). rewrite E2. apply IH. lia.
+    + specialize (IH bm (i + 1) 0 0). cbn in IH.
+      destruct (0 <? len) eqn:E; [apply N.ltb_lt in E|].
+      * cbn. constructor; [lia|assumption|]. apply sorted_weaken with (lo := i + 1); [lia|]. apply IH. lia.
+      * cbn. apply sorted_weaken with (lo := i + 1); [lia|]. apply IH. lia.
+Qed.
+
+(* every position of every run is either in the run that was open at i, or a set bit among the n positions *)
+Lemma runs_aux_sound n : forall bm i start len r k, (0 < len -> start + len = i) ->
+  In r (runs_aux n bm i start len) -> in_run r k ->
+  (0 < len /\ start <= k /\ k < i) \/ (i <= k /\ k < i + N.of_nat n /\ N.testbit bm k = true).
+Proof.
+  induction n as [|n IH]; intros bm i start len r k H I K; cbn [runs_aux] in I.
+  - destruct (0 <? len) eqn:E; [|destruct I]. apply N.ltb_lt in E. destruct I as [<-|[]]. unfold in_run in K. cbn in K. lia.
+  - destruct (N.testbit bm i) eqn:B.
+    + apply IH with (k := k) in I; [|destruct (len =? 0) eqn:E; [apply N.eqb_eq in E|apply N.eqb_neq in E]; lia|assumption].
+      destruct I as [(_ & I1 & I2)|(I1 & I2 & I3)].
+      * destruct (N.eq_dec k i) as [->|Hne].
+        { right. split; [lia|]. split; [lia|assumption]. }
+        destruct (len =? 0) eqn:E; [apply N.eqb_eq in E|apply N.eqb_neq in E]; [lia|]. left. lia.
+      * right. split; [lia|]. split; [lia|assumption].
+    + apply in_app_or in I. destruct I as [I|I].
+      * destruct (0 <? len) eqn:E; [|destruct I]. apply N.ltb_lt in E. destruct I as [<-|[]]. unfold in_run in K. cbn in K. left. lia.
+      * apply IH with (k := k) in I; [|lia|assumption]. destruct I as [(I0 & _)|(I1 & I2 & I3)]; [lia|]. right. split; [lia|]. split; [lia|assumption].
+Qed.
+
+(* every set bit among the n positions, and every position of the open run, is in some run *)
+Lemma runs_aux_complete n : forall bm i start len k, (0 < len -> start + len = i) ->
+  (0 < len /\ start <= k /\ k < i) \/ (i <= k /\ k < i + N.of_nat n /\ N.testbit bm k = true) ->
+  exists r, In r (runs_aux n bm i start len) /\ in_run r k.
+Proof.
+  induction n as [|n IH]; intros bm i start len k H K; cbn [runs_aux].
+  - destruct K as [(K0 & K1 & K2)|K]; [|lia].
+    assert (E : (0 <? len) = true) by (apply N.ltb_lt; assumption). rewrite E.
+    exists (start, len). split; [left; reflexivity|]. unfold in_run. cbn. lia.
+  - destruct (N.testbit bm i) eqn:B.
+    + apply IH; [destruct (len =? 0) eqn:E; [apply N.eqb_eq in E|apply N.eqb_neq in E]; lia|].
+      destruct K as [(K0 & K1 & K2)|(K1 & K2 & K3)].
+      * left. destruct (len =? 0) eqn:E; [apply N.eqb_eq in E|apply N.eqb_neq in E]; lia.
+      * destruct (N.eq_dec k i) as [->|Hne].
+        { left. destruct (len =? 0) eqn:E; [apply N.eqb_eq in E|apply N.eqb_neq in E]; lia. }
+        right. split; [lia|]. split; [lia|assumption].
+    + destruct K as [(K0 & K1 & K2)|(K1 & K2 & K3)].
+      * assert (E : (0 <? len) = true) by (apply N.ltb_lt; assumption). rewrite E.
+        exists (start, len). split; [apply in_or_app; left; left; reflexivity|]. unfold in_run. cbn. lia.
+      * assert (k <> i) by (intros ->; congruence).
+        destruct (IH bm (i + 1) 0 0 k ltac:(lia)) as (r & R1 & R2); [right; split; [lia|]; split; [lia|assumption]|].
+        exists r. split; [apply in_or_app; right; assumption|assumption].
+Qed.
+
+Lemma MASK_BITS_nat_N : N.of_nat MASK_BITS_nat = MASK_BITS.
+Proof. apply N2Nat.id. Qed.
+
+Lemma mask_runs_sorted cm : sorted_from 0 (mask_runs cm).
+Proof.
+  unfold mask_runs, runs_in. generalize MASK_BITS_nat. intros n.
+  apply (runs_aux_sorted n cm 0 0 0). lia.
+Qed.
+
+Lemma mask_runs_sound cm r k : In r (mask_runs cm) -> in_run r k -> k < MASK_BITS /\ N.testbit cm k = true.
+Proof.
+  unfold mask_runs, runs_in. rewrite <- MASK_BITS_nat_N. generalize MASK_BITS_nat. intros n I K.
+  destruct (runs_aux_sound n cm 0 0 0 r k ltac:(lia) I K) as [H|(H1 & H2 & H3)]; [lia|].
+  split; [lia|assumption].
+Qed.
+
+Lemma mask_runs_complete cm k : k < MASK_BITS -> N.testbit cm k = true -> exists r, In r (mask_runs cm) /\ in_run r k.
+Proof.
+  unfold mask_runs, runs_in. rewrite <- MASK_BITS_nat_N. generalize MASK_BITS_nat. intros n K B.
+  apply (runs_aux_complete n cm 0 0 0 k ltac:(lia)). right. split; [lia|]. split; assumption.
+Qed.
+
+Lemma mask_runs_bound cm r : In r (mask_runs cm) -> 0 < snd r /\ fst r + snd r <= MASK_BITS.
+Proof.
+  intros I. pose proof (sorted_in 0 _ r (mask_runs_sorted cm) I) as [_ Hl]. split; [assumption|].
+  destruct (mask_runs_sound cm r (fst r + snd r - 1) I) as [H _]; [unfold in_run; lia|]. lia.
 Qed.
